@@ -598,6 +598,11 @@ def oracle(case, obs):
                 add("unreplayable-flow-queued", f"op {n}: start_replay queued flow(s) {bad} that cannot be replayed")
             elif acc != want:
                 add("replayable-flow-skipped", f"op {n}: start_replay({s['ids']}) accepted {acc}, replayable were {want}")
+            for i in acc:
+                c, b = row["flows"][i][2], row["flows"][i][3]
+                if c >= 512 or c & 4 or not c & 16 or b == 0:
+                    add("accepted-flow-not-prepared", f"op {n}: flow {i} was queued but is not prepared for replay (response/error cleared, "
+                        f"is_replay set, backup taken): content {c}, backup {b}")
             for i, pre in zip(s["ids"], s["pre"]):
                 if i in acc and i not in expected and i not in snapshot:
                     snapshot[i] = (pre[2], pre[3])
